@@ -3,6 +3,8 @@ package main
 import (
 	"fmt"
 	"go/ast"
+	"go/constant"
+	"go/parser"
 	"go/token"
 	"go/types"
 	"os"
@@ -30,6 +32,8 @@ type Program struct {
 	repo        string
 	overlay     map[string][]byte
 	typeIDs     map[string]int
+	globalInits map[string]map[string]constant.Value
+	aliases     map[string]map[string]string // package path -> import alias -> import path
 }
 
 const modulePath = "github.com/polynetwork/poly"
@@ -102,7 +106,7 @@ func loadProgram(repo string, cs *Contracts, pkgPaths []string, overlay map[stri
 		}
 	}
 	p := &Program{fset: fset, pkgs: map[string]*packages.Package{}, funcs: map[string]*FuncInfo{}, contracts: cs, repo: repo,
-		allPkgs: map[string]*types.Package{}, typeIDs: map[string]int{}}
+		allPkgs: map[string]*types.Package{}, typeIDs: map[string]int{}, aliases: map[string]map[string]string{}}
 	for _, pkg := range pkgs {
 		if len(pkg.Errors) > 0 {
 			var msgs []string
@@ -113,6 +117,14 @@ func loadProgram(repo string, cs *Contracts, pkgPaths []string, overlay map[stri
 		}
 		p.pkgs[pkg.PkgPath] = pkg
 		for _, file := range pkg.Syntax {
+			for _, imp := range file.Imports {
+				if imp.Name != nil && imp.Name.Name != "_" && imp.Name.Name != "." {
+					if p.aliases[pkg.PkgPath] == nil {
+						p.aliases[pkg.PkgPath] = map[string]string{}
+					}
+					p.aliases[pkg.PkgPath][imp.Name.Name] = strings.Trim(imp.Path.Value, "\"")
+				}
+			}
 			for _, d := range file.Decls {
 				fd, ok := d.(*ast.FuncDecl)
 				if !ok || fd.Body == nil {
@@ -143,6 +155,55 @@ func loadProgram(repo string, cs *Contracts, pkgPaths []string, overlay map[stri
 		return nil, err
 	}
 	return p, nil
+}
+
+// globalInit: the constant initialiser of a package-level variable of the repository, if it is a
+// string or integer literal. Such variables (storage-key prefixes, method names) are treated as
+// constants: assumption "package-level variables initialised with a literal are never reassigned".
+func (p *Program) globalInit(o *types.Var) (constant.Value, bool) {
+	if o.Pkg() == nil || !strings.HasPrefix(o.Pkg().Path(), modulePath) {
+		return nil, false
+	}
+	path := o.Pkg().Path()
+	if p.globalInits == nil {
+		p.globalInits = map[string]map[string]constant.Value{}
+	}
+	m, ok := p.globalInits[path]
+	if !ok {
+		m = map[string]constant.Value{}
+		p.globalInits[path] = m
+		dir := filepath.Join(p.repo, strings.TrimPrefix(strings.TrimPrefix(path, modulePath), "/"))
+		files, _ := filepath.Glob(filepath.Join(dir, "*.go"))
+		fset := token.NewFileSet()
+		for _, fn := range files {
+			if strings.HasSuffix(fn, "_test.go") {
+				continue
+			}
+			f, err := parser.ParseFile(fset, fn, nil, 0)
+			if err != nil {
+				continue
+			}
+			for _, d := range f.Decls {
+				gd, ok := d.(*ast.GenDecl)
+				if !ok || gd.Tok != token.VAR {
+					continue
+				}
+				for _, sp := range gd.Specs {
+					vs := sp.(*ast.ValueSpec)
+					if len(vs.Values) != len(vs.Names) {
+						continue
+					}
+					for i, name := range vs.Names {
+						if bl, ok := vs.Values[i].(*ast.BasicLit); ok && (bl.Kind == token.STRING || bl.Kind == token.INT) {
+							m[name.Name] = constant.MakeFromLiteral(bl.Value, bl.Kind, 0)
+						}
+					}
+				}
+			}
+		}
+	}
+	v, ok := m[o.Name()]
+	return v, ok
 }
 
 func (p *Program) typeID(t types.Type) int {
